@@ -124,7 +124,9 @@ Definition checksum_verify : D bool :=
     (if (p_cktype p =? CK_NULL) || p_md_only p then ret true
      else
        crc <- vfs_checksum (p_cktype p) (p_file_name p) (p_progress p) ;;
-       if bytes_eqb crc (p_crc32 p) then ret true
+       (* data known to be missing (progress below the EOF's file size) fails the verification even if the checksum of the
+          part received so far happens to match (F31 repair) *)
+       if bytes_eqb crc (p_crc32 p) && (match p_file_size_eof p with None => true | Some n => n <=? p_progress p end) then ret true
        else (declare_fault C_CHECKSUM_FAILURE ;;; ret false)) ;;
   when complete
     (setp (fun p => p <| p_fin ::= (fun f => f <| f_deliv := DATA_COMPLETE |> <| f_cond := C_NO_ERROR |>) |>)) ;;;
@@ -409,7 +411,9 @@ Definition common_first_packet_not_metadata (h : hdr) : D unit :=
   set_step DS_WAITING_FOR_METADATA ;;;
   setp (fun p => p <| p_md_missing := true |>).
 
-Definition handle_eof_without_previous_metadata (cksum : bytes) (fsize : Z) : D unit :=
+Definition handle_eof_without_previous_metadata (cond : Z) (cksum : bytes) (fsize : Z) : D unit :=
+  (* an EOF (cancel) cancels the transaction also when the Metadata has not been seen (F32 repair) *)
+  if negb (cond =? C_NO_ERROR) then handle_eof_pdu cond cksum fsize else
   setp (fun p => p <| p_progress := fsize |> <| p_file_size_eof := Some fsize |> <| p_crc32 := cksum |>
                    <| p_md_missing := true |>) ;;;
   when (0 <? fsize) (setp (fun p => p <| p_tracker := add (0, fsize) LostSeg.reset |>)) ;;;
@@ -441,8 +445,8 @@ Definition idle_fsm (pkt : option pdu) : D unit :=
   | None => ret tt
   | Some (PFileData h off data) =>
       common_first_packet_not_metadata h ;;; handle_fd_without_previous_metadata true off data
-  | Some (PEof h _ ck sz _) =>
-      common_first_packet_not_metadata h ;;; handle_eof_without_previous_metadata ck sz
+  | Some (PEof h cond ck sz _) =>
+      common_first_packet_not_metadata h ;;; handle_eof_without_previous_metadata cond ck sz
   | Some (PMetadata h cl ck sz names msgs) => start_transaction h cl ck sz names msgs
   | Some _ => raise E_VALUE
   end.
@@ -532,8 +536,8 @@ Definition handle_waiting_for_missing_metadata (pkt : option pdu) : D unit :=
         (reset_nak_activity_parameters ;;;
          st <- get_step ;;
          when (st =? DS_RECEIVING_FILE_DATA) (set_step DS_WAITING_FOR_MISSING_DATA))
-  | Some (PEof _ _ ck sz _) =>
-      handle_eof_without_previous_metadata ck sz ;;;
+  | Some (PEof _ cond ck sz _) =>
+      handle_eof_without_previous_metadata cond ck sz ;;;
       active <- gp p_deferred ;;
       when active reset_nak_activity_parameters
   | Some _ => ret tt
